@@ -84,6 +84,7 @@ func loadProgram(repo string, goarch string) (*Program, error) {
 	resolveFuncRoles(p)
 	resolveIfaceRoles(p)
 	resolveRoles(p)
+	resolveByFingerprint(p)
 	return p, nil
 }
 
